@@ -8,12 +8,16 @@ class ImplError(Exception):
     """an implementation call (routed through common.call for the frame condition) raised: (error kind, message)"""
 
 
-def gen_system(rng, nf=None, ns=None, positive=True):
-    """random estimator ingredients with dyadic data"""
+def gen_system(rng, nf=None, ns=None, positive=True, nd=None, dkind=None):
+    """random estimator ingredients with dyadic data (nd / dkind: fix the number of domain points / the domain kind)"""
     nf = int(rng.integers(2, 6)) if nf is None else nf
     ns = int(rng.integers(1, 9)) if ns is None else ns
-    nd = int(rng.integers(3, 8))
-    if rng.integers(2):
+    nd_ = int(rng.integers(3, 8))
+    nd = nd_ if nd is None else nd
+    step = bool(rng.integers(2))
+    if dkind is not None:
+        step = dkind == "step"
+    if step:
         dom = float(dyadic(rng, 0.25, 4, 2)); dkind = "step"
     else:
         steps = dyadic(rng, 0.25, 4, 2, size=nd - 1)
@@ -71,7 +75,12 @@ def run(R):
               "baseline zero or of the order of the receptor's own capture), in a quarter the sources differ in power up to "
               "2^20. Representations: filters, sources, domain, K, baseline, intensities and backgrounds are handed over as "
               "float/integer (whole-number intensities) arrays, Fortran-ordered, strided views or lists (as_given); every call "
-              "is checked for the frame condition (arguments and registered state unchanged by a query). Non-trivial: >=2 "
+              "is checked for the frame condition (arguments and registered state unchanged by a query). Large batches (cases L*): "
+              "1e3..1e5 intensity vectors (image pixels / long stimulus sequences; the product filters x signals x domain up to 8e6 values) "
+              "over 3-7 point or 20-60 point grids, array and scalar-step domains: the whole batch of system_capture / "
+              "capture(X @ sources) / both relative captures is compared in floating point with A x and K(A x + baseline) from the exact "
+              "model's A and route against route, four sampled rows (first, last, two random) with the exact model, and the sampled "
+              "spectra once more as a small batch afterwards. Non-trivial: >=2 "
               "sources, K not scalar or baseline non-zero, distinct rows.")
     RT = 1e-10
     todo = []
@@ -146,7 +155,80 @@ def run(R):
         R.driver.ask("m%d" % k, "capture", dt, ms(filt), ms(X @ src))   # X@src exact: dyadic, small
         R.driver.ask("b%d" % k, "capture1", dt, vs(bgspec), ms(filt))
         todo.append((c, st, out))
+    # ---- large batches -------------------------------------------------------------------------------------------------
+    # "all intensity vectors and batches of them": a batch is also the 1e3 .. 1e5 pixels of an image or the frames of a long
+    # stimulus, over the short grids above or a spectrometer-like grid of 20-60 points. The whole batch is judged in floating
+    # point against the exact model's A (intensity route) and the two routes against each other (the property's clause:
+    # system_capture(X) equals capture(X @ sources), relative captures likewise); a few rows of it (first, last, two random)
+    # are compared with the exact model as above. Orthogonal design over the case number: domain kind, grid length, size.
+    nbig = 8 if R.tier == "quick" else 48
+    big = []
+    for kb in range(nbig):
+        kname = "L%d" % kb
+        if not R.want(kname):
+            continue
+        rng = R.rng(2, kb)
+        long_grid = (kb // 2) % 2 == 0
+        nf, ns, nd, dom, dkind, filt, src = gen_system(rng, nd=(int(rng.integers(20, 61)) if long_grid else None),
+                                                       dkind=("array" if kb % 2 == 0 else "step"))
+        rk, fg, sk, sg = gen_gains(rng, nf, ns)
+        filt = filt * fg[:, None]; src = src * sg[:, None]
+        kk, K = gen_K(rng, nf)
+        bk, base = gen_base(rng, nf)
+        if rk == "wide":
+            base = base * (fg if bk == "vector" else float(np.min(fg)))
+        lo, hi = ((2e4, 1e5) if (kb // 4) % 2 == 0 else (1e3, 2e4))
+        N = int(round(float(np.exp(rng.uniform(np.log(lo), np.log(hi))))))
+        N = max(1000, min(N, int(8e6 // (nf * nd))))      # the broadcast product filters x signals x domain stays below 8e6 values (64 MB)
+        whole = bool(rng.integers(4) == 0)
+        X = dyadic(rng, 0, 3, 0 if whole else 3, size=(N, ns))
+        rows = sorted({0, N - 1, int(rng.integers(N)), int(rng.integers(N))})
+        c = dict(k=kname, nf=nf, ns=ns, nd=nd, domain_kind=dkind, dom=dom, K_kind=str(kk), K=K, baseline_kind=str(bk), baseline=base,
+                 filters=filt, sources=src, batch_size=N, X_generation="dyadic(rng(2,%d), 0, 3, bits=%d, size=(N, ns)) after the system draws" % (kb, 0 if whole else 3),
+                 sampled_rows=rows, X_sampled=X[rows], receptor_range=rk, source_range=sk)
+        for key in ("domain_kind", "K_kind", "baseline_kind", "receptor_range", "source_range"):
+            R.count("large-batch:%s:%s" % (key, c[key]))
+        R.count("large-batch:grid=%s" % ("20-60 points" if long_grid else "3-7 points"))
+        R.count("large-batch:rows=%s" % ("<=3e3" if N <= 3000 else ("<=2e4" if N <= 20000 else "<=1e5")))
+        R.count("large-batch:filters x signals x domain %s 1e6 values" % (">" if nf * N * nd > 1e6 else "<="))
+        g = dict(filt=as_given(rng, filt.copy(), R, "filters"), src=as_given(rng, src.copy(), R, "sources"),
+                 X=as_given(rng, X.copy(), R, "X-large", kinds=("same", "int", "fortran", "strided")),
+                 dom=(dom if np.isscalar(dom) else as_given(rng, dom.copy(), R, "domain", kinds=("same", "list", "strided"))),
+                 K=(K if np.isscalar(K) else as_given(rng, K.copy(), R, "K")),
+                 base=(base if np.isscalar(base) else as_given(rng, base.copy(), R, "baseline")))
+        mix = X @ src       # exact: dyadic data, at most 8 terms
+        mixg = as_given(rng, mix, R, "mix-large", kinds=("same", "fortran", "strided"))
+        st, out = "ok", {}
+        stc, est = call(dreye.ReceptorEstimator, g["filt"], domain=g["dom"], K=g["K"], baseline=g["base"], sources=g["src"])
+        if stc != "ok":
+            st, out = stc, est
+        else:
+            out["A"] = est.A.copy()
+            for name, f, arg in (("sc", est.system_capture, g["X"]), ("src", est.system_relative_capture, g["X"]),
+                                 ("cap_mix", est.capture, mixg), ("relcap_mix", est.relative_capture, mixg)):
+                stc, v = call(f, arg)
+                if stc != "ok":
+                    st, out = stc, "%s: %s" % (name, v)
+                    break
+                out[name] = np.asarray(v)
+            if st == "ok":
+                # a small batch through the same estimator afterwards: the rows sampled for the exact comparison, on their own
+                stc, v = call(est.capture, mix[rows].copy())
+                if stc != "ok":
+                    st, out = stc, "capture of %d rows after the large batch: %s" % (len(rows), v)
+                else:
+                    out["cap_rows"] = np.asarray(v)
+        dt = dom_text(dom, True)
+        R.driver.ask("La%d" % kb, "systemA", dt, ms(filt), ms(src))
+        R.driver.ask("Lm%d" % kb, "capture", dt, ms(filt), ms(mix[rows]))
+        big.append((c, st, out, X, kb))
     R.driver.run()
+    for c, st, out, X, kb in big:
+        if st != "ok":
+            continue
+        c["_A"] = R.driver.get("La%d" % kb).mat()
+        for i, r_ in enumerate(c["sampled_rows"]):
+            R.driver.ask("Ls%d_%d" % (kb, i), "syscap", ms(c["_A"]), vs(X[r_]))
     # second round: quantities that need the model's A
     for c, st, out in todo:
         if st != "ok":
@@ -160,6 +242,12 @@ def run(R):
             R.driver.ask("s%d_%d" % (k, i), "syscap", ms(A), vs(x))
         R.driver.ask("sb%d" % k, "syscap", ms(A), vs(c["bg_x"]))
     R.driver.run()
+    for c, st, out, X, kb in big:
+        if st != "ok":
+            continue
+        c["_Q"] = [R.driver.get("Ls%d_%d" % (kb, i)).vec() for i in range(len(c["sampled_rows"]))]
+        for i, q in enumerate(c["_Q"]):
+            R.driver.ask("Lr%d_%d" % (kb, i), "relcap", K_text(c["K"]), vs(np.atleast_1d(c["baseline"])), vs(q))
     for c, st, out in todo:
         if st != "ok":
             continue
@@ -250,3 +338,83 @@ def run(R):
                 continue
             seen.add(sig)
             R.failB(dict(pub, impl={kk: v for kk, v in out.items()}), what, "C02:%s:K=%s:baseline=%s" % (sig, c["K_kind"], c["baseline_kind"]))
+
+    # ---- large batches: judge ---------------------------------------------------------------------------------------
+    for c, st, out, X, kb in big:
+        pub = {kk: v for kk, v in c.items() if not kk.startswith("_")}
+        nf, ns, N, rows = c["nf"], c["ns"], c["batch_size"], c["sampled_rows"]
+        nontriv = (c["k"], c["filters"].tobytes(), c["sources"].tobytes()) if (ns >= 2 and (c["K_kind"] != "scalar" or c["baseline_kind"] != "zero")) else None
+        R.case(pub, nontriv)
+        sigt = "C02:large-batch:%%s:K=%s:baseline=%s" % (c["K_kind"], c["baseline_kind"])
+        if st != "ok":
+            R.failB(dict(pub, impl_error=out), "estimator raised %s on a batch of %d intensity vectors: %s" % (st, N, out), sigt % ("raises:" + st))
+            continue
+        bad = []
+        A = c["_A"]
+        Af = np.array([[float(v) for v in row] for row in A])
+        Aimpl = np.asarray(out["A"])
+        scaleA = float(np.max(np.abs(Aimpl))) + 1e-300
+        if Aimpl.shape != (nf, ns):
+            bad.append(("A-shape", None, "A has shape %s, expected %s" % (Aimpl.shape, (nf, ns))))
+        else:
+            for j in range(nf):
+                for s_ in range(ns):
+                    if not close(Aimpl[j, s_], A[j][s_], scaleA, RT):
+                        bad.append(("A", None, "A[%d,%d]=%r but the capture of source %d by filter %d is %s" % (j, s_, Aimpl[j, s_], s_, j, rs(A[j][s_]))))
+        shapes_ok = True
+        for name in ("sc", "src", "cap_mix", "relcap_mix"):
+            if out[name].shape != (N, nf):
+                shapes_ok = False
+                bad.append((name + "-shape", None, "%s of a batch of %d has shape %s, expected %s" % (name, N, out[name].shape, (N, nf))))
+        if out["cap_rows"].shape != (len(rows), nf):
+            shapes_ok = False
+            bad.append(("cap_rows-shape", None, "capture of %d spectra has shape %s" % (len(rows), out["cap_rows"].shape)))
+        if shapes_ok:
+            sc, rel, cm, rm = out["sc"], out["src"], out["cap_mix"], out["relcap_mix"]
+            scaleQ = float(np.max(np.abs(sc))) + scaleA
+            Kabs = float(np.max(np.abs(np.atleast_1d(c["K"])))); babs = float(np.max(np.abs(np.atleast_1d(c["baseline"]))))
+            scaleR = (scaleQ + babs) * Kabs * nf
+            # whole batch, floating point: reference from the exact model's A (float64 of the exact entries); the float
+            # evaluation of at most 8 (x nf for a matrix K) non-cancelling terms is accurate to ~1e-15 of the scale
+            Qref = X @ Af.T
+            Kv = np.atleast_1d(np.asarray(c["K"], dtype=float)); bv = np.atleast_1d(np.asarray(c["baseline"], dtype=float))
+            Rref = (Qref + bv) * Kv if Kv.ndim == 1 else (Qref + bv) @ Kv.T
+
+            def worst(a, b):
+                d = np.abs(np.asarray(a, dtype=float) - b)
+                d = np.where(np.isfinite(d), d, np.inf)
+                i, j = np.unravel_index(int(np.argmax(d)), d.shape)
+                return float(d[i, j]), int(i), int(j)
+            for sig, a, b, scale, what in (
+                    ("system_capture", sc, Qref, scaleQ, "system_capture[%d,%d]=%r but A x (exact model's A) is %r"),
+                    ("mixture", sc, cm, scaleQ, "system_capture[%d,%d]=%r but the capture of the physically mixed spectrum (same row of the batch) is %r"),
+                    ("mixture-model", cm, Qref, scaleQ, "capture(mixed spectra)[%d,%d]=%r but A x (exact model's A) is %r"),
+                    ("relative", rel, Rref, scaleR, "system_relative_capture[%d,%d]=%r but K(Q+baseline) is %r"),
+                    ("relative-mix", rm, Rref, scaleR, "relative_capture(mixed spectra)[%d,%d]=%r but K(Q+baseline) is %r")):
+                d, i, j = worst(a, b)
+                if not d <= RT * scale:
+                    bad.append((sig, i, (what % (i, j, float(a[i, j]), float(b[i, j]))) + " (batch of %d rows, tolerance %.3g)" % (N, RT * scale)))
+            # sampled rows against the exact model
+            Mix = R.driver.get("Lm%d" % kb).mat()
+            for ii, r_ in enumerate(rows):
+                q = c["_Q"][ii]; rr = R.driver.get("Lr%d_%d" % (kb, ii)).vec()
+                for j in range(nf):
+                    if not close(sc[r_, j], q[j], scaleQ, RT):
+                        bad.append(("system_capture", r_, "system_capture[%d,%d]=%r, model %s" % (r_, j, sc[r_, j], rs(q[j]))))
+                    if not close(sc[r_, j], Mix[ii][j], scaleQ, RT) or not close(cm[r_, j], Mix[ii][j], scaleQ, RT):
+                        bad.append(("mixture", r_, "system_capture[%d,%d]=%r but capture of the mixed spectrum is %s (impl, within the batch of %d: %r)"
+                                    % (r_, j, sc[r_, j], rs(Mix[ii][j]), N, cm[r_, j])))
+                    if not close(out["cap_rows"][ii, j], Mix[ii][j], scaleQ, RT):
+                        bad.append(("mixture-small-after-large", r_, "capture of mixed spectrum %d asked in a batch of %d after the large batch is %r, model %s"
+                                    % (r_, len(rows), out["cap_rows"][ii, j], rs(Mix[ii][j]))))
+                    if not close(rel[r_, j], rr[j], scaleR, RT):
+                        bad.append(("relative", r_, "system_relative_capture[%d,%d]=%r but K(Q+baseline) is %s" % (r_, j, rel[r_, j], rs(rr[j]))))
+                    if not close(rm[r_, j], rr[j], scaleR, RT):
+                        bad.append(("relative-mix", r_, "relative_capture(mixed spectrum)[%d,%d]=%r but K(Q+baseline)=%s" % (r_, j, rm[r_, j], rs(rr[j]))))
+        seen = set()
+        for sig, row, what in bad:
+            if sig in seen:
+                continue
+            seen.add(sig)
+            extra = {} if row is None else dict(row=row, x=X[row], impl={n_: out[n_][row] for n_ in ("sc", "src", "cap_mix", "relcap_mix") if out[n_].ndim == 2 and out[n_].shape[0] > row})
+            R.failB(dict(pub, impl_A=out["A"], **extra), what, sigt % sig)
